@@ -4,6 +4,7 @@ import (
 	"bufio"
 	"bytes"
 	"encoding/json"
+	"flag"
 	"fmt"
 	"io"
 	"math/rand"
@@ -111,6 +112,9 @@ func (d GData) Process() (string, error) {
 	d.G.Hit(d.ID, 1)
 	b := gval(d.B)
 	d.G.Hit(d.ID, 2)
+	if a == ErrTrigger {
+		return "", fmt.Errorf("input %s is not acceptable", a) // NodeTerms.tla: the zero value is served
+	}
 	return "n" + strconv.Itoa(d.ID) + "(" + a + "," + b + ",[])", nil
 }
 
@@ -140,6 +144,7 @@ type psLine struct {
 	Res  string    `json:"res"`
 	Wire []WireRec `json:"wire"`
 	Prod []int     `json:"prod"`
+	Init []int     `json:"init"` // initial parameter values (reset line)
 	H    int       `json:"h"`
 	NC   int       `json:"nc"`
 }
@@ -207,6 +212,8 @@ func newPSSystem() *psSystem {
 	for p := 1; p <= 2; p++ {
 		params[p] = &parameter.Value[string]{Name: "p" + strconv.Itoa(p), DefaultValue: paramTerm(p, 1)}
 	}
+	// parameter 2 is served from a command line flag (value 7) until its first update; its default is 1
+	params[2].CLI = &parameter.CliConfig[string]{FlagName: "p2", Usage: "second parameter"}
 	vecParam := &parameter.Value[[]vector3.Float64]{Name: "p3", DefaultValue: vecValue(1)}
 	ns := map[int]*GNode{}
 	out := func(s int) nodes.NodeOutput[string] {
@@ -232,6 +239,11 @@ func newPSSystem() *psSystem {
 		sys.pids[p] = inst.NodeId(params[p])
 	}
 	sys.pids[3] = inst.NodeId(vecParam)
+	fs := flag.NewFlagSet("verif", flag.ContinueOnError)
+	inst.InitializeParameters(fs)
+	if err := fs.Parse([]string{"-p2", paramTerm(2, 7)}); err != nil {
+		panic(err)
+	}
 	return sys
 }
 
@@ -259,6 +271,16 @@ func (s *psSystem) call(op PSOp) (res string) {
 		}
 		_, err := s.inst.UpdateParameter(s.pids[op.P], msg)
 		if err != nil {
+			return "ERR"
+		}
+		return "ok"
+	case "updbad":
+		// valid JSON of the wrong shape: must be rejected and leave the parameter as it was
+		msg := []byte(`123`)
+		if op.P == 3 {
+			msg = []byte(`[{"x":9,"y":9,"z":9},"oops",{"x":8,"y":8,"z":8}]`)
+		}
+		if _, err := s.inst.UpdateParameter(s.pids[op.P], msg); err != nil {
 			return "ERR"
 		}
 		return "ok"
@@ -303,7 +325,7 @@ func runPSCase(h int, cs PSCase) []psLine {
 	sys := newPSSystem()
 	rec := &psRecorder{}
 	nc := len(cs.Progs)
-	rec.add(psLine{K: "reset", Wire: psWire, Prod: psProd, H: h, NC: nc})
+	rec.add(psLine{K: "reset", Wire: psWire, Prod: psProd, Init: []int{1, 7, 1}, H: h, NC: nc})
 	g := sys.gates
 	directed := cs.Mode != "stress"
 	g.mu.Lock()
@@ -474,6 +496,9 @@ func RunParamServer(in, out string) error {
 			if l.Prod == nil {
 				l.Prod = []int{}
 			}
+			if l.Init == nil {
+				l.Init = []int{}
+			}
 			if err := enc.Encode(l); err != nil {
 				return err
 			}
@@ -505,11 +530,22 @@ func GenParamServerStress(out string, seed int64, n, clients, ops int) error {
 					if p == 3 {
 						prog = append(prog, PSOp{Op: "upd", P: 3, V: (val%9+1)*10 + 1 + r.Intn(5)})
 					} else {
-						prog = append(prog, PSOp{Op: "upd", P: p, V: val})
+						v := val
+						switch r.Intn(6) {
+						case 0:
+							v = 13 // makes the processors reading p1 fail
+						case 1:
+							v = 1 // the default value
+						}
+						prog = append(prog, PSOp{Op: "upd", P: p, V: v})
 					}
 					val++
 				case 2:
-					prog = append(prog, PSOp{Op: "get", P: 1 + r.Intn(3)})
+					if r.Intn(3) == 0 {
+						prog = append(prog, PSOp{Op: "updbad", P: []int{1, 3}[r.Intn(2)]})
+					} else {
+						prog = append(prog, PSOp{Op: "get", P: 1 + r.Intn(3)})
+					}
 				default:
 					prog = append(prog, PSOp{Op: "art", P: 1 + r.Intn(3)})
 				}
